@@ -582,6 +582,10 @@ def apply_op(m, key, val):
     return out
 
 
+DEFAULT_FAMILIES = ["voronoi", "delaunay", "merged", "polyhedron", "latlon_patch", "cubed_sphere", "latlon_global", "clustered", "bipyramid"]
+ALL_FAMILIES = DEFAULT_FAMILIES + ["fine_patch", "refined"]  # + high-resolution patches / locally refined closed meshes
+
+
 def random_mesh(rng, max_faces=200, allow_partial=True, families=None):
     """Draw a mesh descriptor-first so that it can be replayed."""
     fams = families or ["voronoi", "delaunay", "merged", "polyhedron", "latlon_patch", "cubed_sphere", "latlon_global", "clustered", "bipyramid"]
